@@ -390,13 +390,7 @@ class _GTFFake:
     GenomicAnnotationOnDisk = _AnnoOnDisk
 
 
-@cond('C12', bounds='generateIndex: ' + _PB, encodes=['moPepGen.cli.generate_index.generate_index'],
-      stubs=_PSTUBS, codes=CODES_P, shim=False, timeout=200)
-def c12_plumb_generate(e: int, x: int, m: int, lo: int, hi: int) -> int:
-    """
-    pre: 0 <= e <= 1 and 0 <= x <= 2
-    post: _ >= 0
-    """
+def _c12_plumb_generate(e, x, m, lo, hi):
     _Proteome.log = []
     mw = 321
     with patched((gi, 'IndexDir', _FakeIndexDir), (gi, 'aa', _AAFake), (gi, 'dna', _DNAFake),
@@ -411,13 +405,17 @@ def c12_plumb_generate(e: int, x: int, m: int, lo: int, hi: int) -> int:
     return _same(_Proteome.log[0], d.saved[0])
 
 
-@cond('C12', bounds='updateIndex: ' + _PB, encodes=['moPepGen.cli.update_index.update_index'],
+@cond('C12', bounds='generateIndex: ' + _PB, encodes=['moPepGen.cli.generate_index.generate_index'],
       stubs=_PSTUBS, codes=CODES_P, shim=False, timeout=200)
-def c12_plumb_update(e: int, x: int, m: int, lo: int, hi: int) -> int:
+def c12_plumb_generate(e: int, x: int, m: int, lo: int, hi: int) -> int:
     """
     pre: 0 <= e <= 1 and 0 <= x <= 2
     post: _ >= 0
     """
+    return _c12_plumb_generate(e, x, m, lo, hi)
+
+
+def _c12_plumb_update(e, x, m, lo, hi):
     _Proteome.log = []
     mw = 321
     a = _args(e, x, m, mw, lo, hi)
@@ -435,14 +433,17 @@ def c12_plumb_update(e: int, x: int, m: int, lo: int, hi: int) -> int:
     return _same(_Proteome.log[0], d.saved[0])
 
 
-@cond('C10', bounds='on-the-fly pool in load_references (no index dir): ' + _PB,
-      encodes=['moPepGen.cli.common.load_references'], stubs=_PSTUBS, codes=CODES_P, shim=False,
-      timeout=200)
-def c10_plumb_load_references(e: int, x: int, m: int, lo: int, hi: int) -> int:
+@cond('C12', bounds='updateIndex: ' + _PB, encodes=['moPepGen.cli.update_index.update_index'],
+      stubs=_PSTUBS, codes=CODES_P, shim=False, timeout=200)
+def c12_plumb_update(e: int, x: int, m: int, lo: int, hi: int) -> int:
     """
     pre: 0 <= e <= 1 and 0 <= x <= 2
     post: _ >= 0
     """
+    return _c12_plumb_update(e, x, m, lo, hi)
+
+
+def _c10_plumb_load_references(e, x, m, lo, hi):
     _Proteome.log = []
     mw = 321
     a = _args(e, x, m, mw, lo, hi)
@@ -458,6 +459,17 @@ def c10_plumb_load_references(e: int, x: int, m: int, lo: int, hi: int) -> int:
     return _same(_Proteome.log[0], cp)
 
 
+@cond('C10', bounds='on-the-fly pool in load_references (no index dir): ' + _PB,
+      encodes=['moPepGen.cli.common.load_references'], stubs=_PSTUBS, codes=CODES_P, shim=False,
+      timeout=200)
+def c10_plumb_load_references(e: int, x: int, m: int, lo: int, hi: int) -> int:
+    """
+    pre: 0 <= e <= 1 and 0 <= x <= 2
+    post: _ >= 0
+    """
+    return _c10_plumb_load_references(e, x, m, lo, hi)
+
+
 @cond('C04', bounds='canonical pool used for filtering is digested with the same cleavage settings as '
       'the command run (on-the-fly branch of load_references): ' + _PB,
       encodes=['moPepGen.cli.common.load_references'], stubs=_PSTUBS, codes=CODES_P, shim=False,
@@ -467,4 +479,30 @@ def c04_pool_same_settings(e: int, x: int, m: int, lo: int, hi: int) -> int:
     pre: 0 <= e <= 1 and 0 <= x <= 2
     post: _ >= 0
     """
-    return c10_plumb_load_references(e, x, m, lo, hi)
+    return _c10_plumb_load_references(e, x, m, lo, hi)
+
+
+@cond('C06', bounds='raw reference vs index directory: both digest the canonical pool with the same resolved '
+      'parameters (generate_index registers what load_references would digest on the fly): ' + _PB,
+      encodes=['moPepGen.cli.common.load_references', 'moPepGen.cli.generate_index.generate_index'],
+      stubs=_PSTUBS, codes=CODES_P, shim=False, timeout=200)
+def c06_raw_vs_index_pool(e: int, x: int, m: int, lo: int, hi: int) -> int:
+    """
+    pre: 0 <= e <= 1 and 0 <= x <= 2
+    post: _ >= 0
+    """
+    r = _c10_plumb_load_references(e, x, m, lo, hi)
+    if r != OK:
+        return r
+    raw = dict(_Proteome.log[0])
+    r = _c12_plumb_generate(e, x, m, lo, hi)
+    if r != OK:
+        return r
+    idx = dict(_Proteome.log[0])
+    for k in ('rule', 'exception', 'miscleavage', 'min_mw', 'min_length', 'max_length'):
+        if raw[k] != idx[k]:
+            return -9
+    return OK
+
+
+CODES_P[-9] = 'the raw-reference path and generateIndex digest the canonical pool with different parameters'
